@@ -131,7 +131,44 @@ def layout(facts):
     return dict(w=wi[0], i=ii[0], c=ci[0], g=gi[0], max=mi[0], elem=ety, il=il[0], ei=ei[0], ea=ea[0], cfg=cfg)
 
 
+def _subst(v, old, new):
+    if v is None:
+        return v
+    if v[0] == "const":
+        return ("const", new) if v[1] == old else v
+    if v[0] == "refval":
+        return ("refval", _subst(v[1], old, new))
+    if v[0] == "variant":
+        return ("variant", v[1], tuple((i, _subst(x, old, new)) for i, x in v[2]))
+    return v
+
+
+def waiter_shapes(facts, lay):
+    """What `Pool::checkout` registers for a dependant / for a checkout with a dial of its own: read off the code itself, so
+    that the tables do not depend on how a queued waiter is represented (tuple, struct, role enum)."""
+    if hasattr(facts, "_waiter_shapes"):
+        return facts._waiter_shapes
+    shapes = {}
+    try:
+        for dep in (True, False):
+            lay2 = dict(lay, _no_shapes=True)
+            u, outs = evaluate_checkout(facts, lay2, False, dep, False, True)
+            qs = {o[2][0][0] for o in outs}
+            if len(qs) == 1:
+                q = next(iter(qs))
+                if q is not None and len(q) == 1 and _contains(q[0], "tx:NEW"):
+                    shapes[dep] = q[0]
+    except Exception:
+        shapes = {}
+    facts._waiter_shapes = shapes if len(shapes) == 2 and shapes[True] != shapes[False] else None
+    return facts._waiter_shapes
+
+
 def waiter_value(facts, lay, tag, dependent):
+    if not lay.get("_no_shapes"):
+        sh = waiter_shapes(facts, lay)
+        if sh:
+            return _subst(sh[dependent], "tx:NEW", tag)
     ety = lay["elem"]
     tx = ("const", tag)
     flag = ("const", "true" if dependent else "false")
@@ -307,3 +344,159 @@ def cancel_table(ctx, facts, label="PoolInner::cancel_connection"):
         ctx.check(got == {want}, key, "marker %s, queue [%s]: the marker is cleared and exactly the dependants of a cancelled attempt are released" % ("set" if connecting else "not set", ", ".join("dependent" if d else "own-dial" for _, d in ws)),
                   "cancel_connection can end with (deliveries, queue left, idle, marker still set) = %s; expected %s" % (sorted(map(str, got))[:2], want), u.where())
     ctx.floor("%s|table-rows" % label, rows, len(scen), "scenarios evaluated")
+
+
+# ---------------------------------------------------------------------------------------------------------------------------
+# Pool::checkout (with Checkout::new spliced in): which kind of checkout a request gets, and what it registers
+
+CHECKOUT = "client::pool::Pool::checkout"
+
+
+def _checkout_unit(facts):
+    if not hasattr(facts, "_checkout_unit"):
+        OPAQUE = r"PoolInner::pop$|TokenMap::insert$|Pool::as_ref$|ConnectorMeta::new$|CheckoutId::new$"
+        pats = [re.compile(p) for p, _ in RAW]
+        facts._checkout_unit = inline.inline(facts, facts.fn(CHECKOUT), 4, lambda ck, raw: "::_::" not in ck and not re.search(OPAQUE, norm(ck)) and not any(rx.search(norm(ck)) for rx in pats), expand=True)
+    return facts._checkout_unit
+
+
+def evaluate_checkout(facts, lay, popped, marker, multiplex, cap, queue=()):
+    u = _checkout_unit(facts)
+
+    def o_lock(ev, st, t, site):
+        ty = " ".join(t.get("argtys") or [])
+        if "PoolInner<" in ty:
+            return _set_dest(st, t, ("refmut", SELF))
+        if "TokenMap<" in ty:
+            return _set_dest(st, t, ("const", "KEYS_GUARD"))
+        return False
+
+    def o_deref(ev, st, t, site):
+        a = _arg(ev, st, t, 0)
+        v = deref_value(st, a, hops=1) if a is not None and a[0] in ("ref", "refmut", "refval") else a
+        # a guard / Arc dereferences to what it guards: our guards *are* references to the guarded value
+        if v is not None and v[0] in ("refmut", "ref", "const"):
+            return _set_dest(st, t, v)
+        if a is not None and a[0] in ("refmut", "ref"):
+            return _set_dest(st, t, a)
+        return False
+    raw = [(r"Mutex.*::lock$", o_lock), (r"Deref(Mut)?.*::deref(_mut)?$", o_deref),
+           (r"TokenMap.*::insert$", lambda ev, st, t, site: _set_dest(st, t, TOKEN)),
+           (r"oneshot::channel$", lambda ev, st, t, site: _set_dest(st, t, tup(("const", "tx:NEW"), ("const", "RX")))),
+           (r"PoolInner.*::pop$", lambda ev, st, t, site: _set_dest(st, t, some(("const", "conn:idle")) if popped else NONE)),
+           (r"Pool.*::as_ref$", o_const("POOLREF")), (r"ConnectorMeta::new$", o_const("META")), (r"CheckoutId::new$", o_const("ID")),
+           (r"Box.*::pin$|Box.*::new$", lambda ev, st, t, site: _set_dest(st, t, _deref(st, _arg(ev, st, t, 0))))] + RAW
+    st = initial_state(facts, lay, queue, 0, 1, marker, True, True)
+    # config: the pre-emption switch
+    this = st[SELF]
+    f = dict(this[2])
+    cfg = dict(f[lay["g"]][2])
+    ci = [i for i, x in enumerate(lay["cfg"]["variants"][0]["fields"]) if x["ty"] == "bool"]
+    if len(ci) == 1:
+        cfg[ci[0]] = ("const", "true" if cap else "false")
+    f[lay["g"]] = ("variant", "Config", tuple(sorted(cfg.items())))
+    st[SELF] = ("variant", this[1], tuple(sorted(f.items())))
+    st[1] = ("const", "POOL")
+    st[2] = ("const", "KEY")
+    st[3] = ("const", "true" if multiplex else "false")
+    st[4] = ("const", "CONNECTOR")
+
+    def obs(s_):
+        wm = dict((k, v) for k, v in (s_.get(-MAP_W) or ("list", ()))[1])
+        q = wm.get(TOKEN)
+        elems = s_.get(-q[1])[1] if q is not None and q[0] == "seq" and s_.get(-q[1]) is not None else None
+        inflight = TOKEN in (s_.get(-SET_C) or ("list", ()))[1]
+        return (elems, inflight)
+    outs = AbsPaths(u, limit=40000, raw_oracles=raw, oracles=[INT_CMP, VALUE_EQ]).outcomes(state=st, extra_keys=(obs,))
+    return u, outs
+
+
+def _contains(v, tag, depth=8):
+    if v is None or depth == 0:
+        return False
+    if v[0] == "const":
+        return v[1] == tag
+    if v[0] == "refval":
+        return _contains(v[1], tag, depth - 1)
+    if v[0] == "variant":
+        return any(_contains(x, tag, depth - 1) for _, x in v[2])
+    return False
+
+
+def describe_checkout(facts, rv):
+    """(state of the attempt, does it hold the connector, waiter mode, connection held) of a Checkout value."""
+    if rv is None or rv[0] != "variant":
+        return ("?",)
+    adt = facts.adt("client::pool::checkout::Checkout")
+    fl = adt["variants"][0]["fields"]
+    out = {}
+    for i, x in enumerate(fl):
+        v = dict(rv[2]).get(i)
+        if "InnerCheckoutConnecting" in x["ty"]:
+            out["attempt"] = (v[1] if v is not None and v[0] == "variant" else "?", _contains(v, "CONNECTOR"))
+        elif x["ty"].endswith("Waiting") or "checkout::Waiting<" in x["ty"]:
+            out["waiter"] = (v[1] if v is not None and v[0] == "variant" else "?", _contains(v, "RX"))
+        elif x["ty"].startswith("std::option::Option<") and "Connection" in x["ty"]:
+            out["conn"] = "conn:idle" if _contains(v, "conn:idle") else ("None" if v is not None and v[0] == "variant" and v[1] == "None" else "?")
+        elif x["ty"].endswith("key::Token"):
+            out["token"] = "own" if v == TOKEN else "?"
+    return (out.get("attempt"), out.get("waiter"), out.get("conn"), out.get("token"))
+
+
+def checkout_table(ctx, facts, label="Pool::checkout"):
+    """idle hit -> a finished checkout holding that connection, nothing registered; in-flight attempt for the origin -> a pure
+    waiter registered as its dependant, the connector given up; otherwise -> a dialing checkout that owns the connector
+    (kept alive across a drop iff the pool is configured to continue after pre-emption), registered as a waiter of its own,
+    and - for a multiplexing request - the origin's in-flight marker is set."""
+    try:
+        lay = layout(facts)
+    except KeyError as e:
+        return ctx.missing("%s|layout" % label, str(e))
+    rows = 0
+    ctx.check(waiter_shapes(facts, lay) is not None, "%s|registrations-distinguishable" % label,
+              "what a dependant registers differs from what a checkout with its own dial registers (cancel_connection can tell them apart)",
+              "the registrations of a dependant and of a dialing checkout could not be read off / are identical")
+    # registrations go to the back of the origin's queue, earlier ones keep their place
+    for marker in (True, False):
+        key = "%s|table|appends-at-back|marker-%s" % (label, "set" if marker else "unset")
+        try:
+            u, outs = evaluate_checkout(facts, lay, False, marker, False, True, queue=(("alive", False), ("alive", True)))
+            qs = {tuple("new" if _contains(e, "tx:NEW") else ("old#0" if _contains(e, "tx:alive#0") else ("old#1" if _contains(e, "tx:alive#1") else "?")) for e in (o[2][0][0] or ())) for o in outs}
+            ctx.check(qs == {("old#0", "old#1", "new")}, key, "a new waiter is appended behind the ones already queued", "the queue afterwards is %s, expected [old#0, old#1, new]" % sorted(qs), u.where())
+        except (AbsPaths.Undecided, KeyError) as e:
+            ctx.undecided(key, str(e))
+    for popped in (True, False):
+        for marker in (True, False):
+            for multiplex in (True, False):
+                for cap in (True, False):
+                    key = "%s|table|idle-%s|marker-%s|multiplex=%s|continue-after-preemption=%s" % (label, "hit" if popped else "miss", "set" if marker else "unset", multiplex, cap)
+                    try:
+                        u, outs = evaluate_checkout(facts, lay, popped, marker, multiplex, cap)
+                    except AbsPaths.Undecided as e:
+                        ctx.undecided(key, str(e))
+                        continue
+                    except KeyError as e:
+                        return ctx.missing("%s|waiter-type" % label, str(e))
+                    if rows == 0:
+                        ctx.touched(u)
+                    rows += 1
+                    got = set()
+                    for (rv, _, ((elems, inflight),)) in outs:
+                        reg = None
+                        sh = waiter_shapes(facts, lay) or {}
+                        if elems is not None:
+                            reg = tuple(("new" if _contains(e, "tx:NEW") else "?") + ":" + ("dependent" if e == sh.get(True) else ("own" if e == sh.get(False) else "?")) for e in elems)
+                        got.add((describe_checkout(facts, rv), reg, inflight))
+                    if popped:
+                        want = {((("Connected", False), ("Idle", True), "conn:idle", "own"), (), marker)}
+                        good = "an idle connection is handed over at once: nothing is registered, no dial"
+                    elif marker:
+                        want = {((("Waiting", False), ("Connecting", True), "None", "own"), ("new:dependent",), True)}
+                        good = "an attempt is in flight for the origin: the request waits for it (registered as its dependant), it does not dial"
+                    else:
+                        att = "ConnectingWithDelayDrop" if cap else "Connecting"
+                        want = {(((att, True), ("Idle", True), "None", "own"), ("new:own",), bool(multiplex))}
+                        good = "the request dials (owning its connector%s) and registers as a waiter of its own%s" % (", kept alive across a drop" if cap else "", "; the origin is marked as having an attempt in flight" if multiplex else "")
+                    ctx.check(got == want, key, good,
+                              "Pool::checkout can end with (checkout [attempt, waiter, connection, token], registered, marker set) = %s; expected %s" % (sorted(map(str, got))[:2], sorted(map(str, want))), u.where())
+    ctx.floor("%s|table-rows" % label, rows, 16, "scenarios evaluated")
